@@ -34,7 +34,7 @@ COMPONENTS = {
     "real": ["_perturb_variables / _apply_bounds", "GradientConfig.fix_perturbations", "VariableScaler", "EnsembleEvaluator"],
     "stub": ["sim/inject sampler (chooses every sample)", "SimEvaluator", "sim/scripted optimizer"],
 }
-PROBES = ["evaluator_overwrites_its_input", "retaining_sampler", "vectors_compared", "left_bounds", "none_outside_bounds", "truncated", "mirrored_single", "mirror_multi_width",
+PROBES = ["settings_objects_shared_by_two_steps", "evaluator_overwrites_its_input", "retaining_sampler", "vectors_compared", "left_bounds", "none_outside_bounds", "truncated", "mirrored_single", "mirror_multi_width",
           "relative_magnitude", "infinite_bound_side", "evaluator_rows_compared", "two_samplers", "with_variable_transform"]
 
 
@@ -86,6 +86,13 @@ def generate(seed: int, index: int, tier: str) -> dict:
     for e in cfg["optimizer"]["options"]["script"]:
         e["pts"] = [rng.randrange(-1, 2) for _ in e["pts"]]
     scn["stratum"] = "monitor"
+    if rng.random() < 0.12:
+        # the variable and gradient settings are objects the user created once and uses in the configuration of two
+        # steps: the magnitudes configured there (a fraction of the bound range for relative ones) mean the same in both
+        scn["plan"]["steps"].append({"kind": "optimizer", "cfg": 0})
+        scn["subconfig_objects"] = True
+        scn["stratum"] = "settings-objects-shared-by-two-steps"
+        return scn
     if rng.random() < 0.2:
         # an evaluator that works in place on the array of variables it is handed: the reported perturbed vectors (and
         # the differences the gradient is estimated from) must not follow what the evaluator did to its argument.
@@ -111,6 +118,8 @@ def execute(scn: dict) -> dict:
     def probe(name, n=1):
         probes[name] = probes.get(name, 0) + n
 
+    if scn.get("subconfig_objects") and len(ctx.exits) > 1:
+        probe("settings_objects_shared_by_two_steps")
     if (scn.get("mode") or {}).get("scribble_input") and ctx.evaluator.fired.get("input_array_overwritten"):
         probe("evaluator_overwrites_its_input")
     retaining = any((s.get("options") or {}).get("retain") for s in scn["configs"][0]["samplers"])
